@@ -1,4 +1,4 @@
-(* CFG role cert ca name skip | HS role cert ca name skip presents chain time usage name *)
+(* CFG role cert ca name skip | HS role cert ca name skip presents chain hostchain time usage name *)
 open Tls_model
 let b s = s = "1"
 let bit v = if v then 1 else 0
@@ -18,9 +18,9 @@ let () =
             (match client_build s with
              | Disabled -> print_endline "CFG disabled" | BuildError -> print_endline "CFG error"
              | Built c -> Printf.printf "CFG insecure=%d name=%d roots=%d cert=%d time=%d hooks=0\n" (bit c.cc_insecure) (bit c.cc_server_name) (bit c.cc_roots) (bit c.cc_has_cert) (bit c.cc_custom_time))
-      | ["HS"; role; c; ca; n; sk; pr; ch; ti; us; nm] ->
+      | ["HS"; role; c; ca; n; sk; pr; ch; ho; ti; us; nm] ->
           let s = { sh_cert = b c; sh_ca = b ca; sh_name = b n; sh_skip = b sk } in
-          let p = { p_presents = b pr; p_chain = b ch; p_time = b ti; p_usage = b us; p_name = b nm } in
+          let p = { p_presents = b pr; p_chain = b ch; p_host = b ho; p_time = b ti; p_usage = b us; p_name = b nm } in
           if role = "server" then
             (match server_build s with
              | Built c -> print_endline (if server_admits c p then "HS admit" else "HS refuse")
